@@ -33,6 +33,12 @@ func place(s *fam.Spec, pos string) *fam.Spec {
 		p.Required = true
 	case "def-optional":
 		v.Ref = "definitions"
+	case "ext-required":
+		// a goJSONSchema block that only renames the field (identifier): the Go type and every constraint stay what they are
+		p.Required = true
+		p.ExtIdent = true
+	case "ext-optional":
+		p.ExtIdent = true
 	}
 	return &fam.Spec{Kind: "object", Props: []*fam.Prop{p}}
 }
@@ -215,6 +221,12 @@ func stringMembers(tier string, cfg gen.Config) []member {
 			out = append(out, member{name: "string " + pos + " " + sp.String(), cfg: cfg, root: place(sp, pos)})
 		}
 	}
+	for _, pos := range []string{"ext-required", "ext-optional"} {
+		for _, kws := range [][]string{{"minLength"}, {"pattern"}, {"minLength", "maxLength", "pattern"}} {
+			sp := &fam.Spec{Kind: "string", Kw: kws}
+			out = append(out, member{name: "string " + pos + " " + sp.String(), cfg: cfg, root: place(sp, pos)})
+		}
+	}
 	return out
 }
 
@@ -234,6 +246,14 @@ func arrayMembers(tier string, cfg gen.Config) []member {
 	poss := []string{"required", "optional", "nullable-optional", "def-required", "def-optional"}
 	add := func(sp *fam.Spec, pos string) {
 		out = append(out, member{name: "array " + pos + " " + sp.String(), cfg: cfg, root: place(sp, pos)})
+	}
+	// a REQUIRED array that may be null (the key is there, the value is null: nothing to measure), and arrays whose field is only
+	// renamed by a goJSONSchema.identifier block
+	for _, pos := range []string{"nullable-required", "ext-required", "ext-optional"} {
+		for _, k1 := range sets[1:] {
+			add(arraySpec(elems[0], k1), pos)
+		}
+		add(arraySpec(elems[1], sets[3], sets[1]), pos)
 	}
 	for _, pos := range poss {
 		for _, el := range elems {
